@@ -22,6 +22,7 @@ type rpcObs struct {
 	Answered []string       `json:"answered"` // client got the response
 	Failed   []string       `json:"failed"`   // client saw the stream/transport die without a response
 	Closed   bool           `json:"closed"`   // Syncer.Close has returned
+	Closed2  bool           `json:"closed2"`  // a second, overlapping Syncer.Close has returned
 	Sub      map[string]int `json:"sub"`      // subnet name -> counter (only subnets with a positive count)
 }
 
@@ -30,7 +31,7 @@ func (o rpcObs) String() string {
 	for _, k := range hx.SortedKeys(o.Sub) {
 		subs = append(subs, fmt.Sprintf("%s=%d", k, o.Sub[k]))
 	}
-	return fmt.Sprintf("inside=%v answered=%v failed=%v closed=%v sub=[%s]", o.Inside, o.Answered, o.Failed, o.Closed, strings.Join(subs, " "))
+	return fmt.Sprintf("inside=%v answered=%v failed=%v closed=%v closed2=%v sub=[%s]", o.Inside, o.Answered, o.Failed, o.Closed, o.Closed2, strings.Join(subs, " "))
 }
 
 type rpcStep struct {
@@ -115,7 +116,7 @@ func (rg *rpcRig) close() bool {
 
 // observe projects the real system like the oracle's rpcObs.
 func (rg *rpcRig) observe(maxR int) rpcObs {
-	o := rpcObs{Inside: sortedKeys(rg.nd.cm.insideSet()), Sub: map[string]int{}, Closed: rg.nd.closeReturned(), Answered: []string{}, Failed: []string{}}
+	o := rpcObs{Inside: sortedKeys(rg.nd.cm.insideSet()), Sub: map[string]int{}, Closed: rg.nd.closeReturned(), Closed2: rg.nd.close2Returned(), Answered: []string{}, Failed: []string{}}
 	if o.Inside == nil {
 		o.Inside = []string{}
 	}
@@ -190,6 +191,8 @@ func runRPCPath(g *rpcGroup, path []rpcStep, res *hx.Result, probe bool) (sig, d
 		case "StopBegin":
 			rg.nd.beginClose()
 			stopped = true
+		case "Stop2Begin":
+			rg.nd.beginClose2() // a second Close while the first one is (possibly) still waiting
 		default:
 			return "infra", "unknown action " + st.Act.Op, i
 		}
@@ -217,6 +220,10 @@ func classify(got, want rpcObs, g *rpcGroup) string {
 	switch {
 	case got.Closed && !want.Closed:
 		return "close-returned-early"
+	case got.Closed2 && !want.Closed2:
+		return "second-close-returned-early"
+	case !got.Closed2 && want.Closed2:
+		return "second-close-not-returned"
 	case !got.Closed && want.Closed:
 		return "close-not-returned"
 	case len(got.Inside) > len(want.Inside):
